@@ -21,9 +21,12 @@ def isPrimeOp (scripted : Bool) : Handler := fun args impl =>
     match ns.toInt? with
     | some n =>
       let s := parseChunks ds
-      let model := match NTV.Prime.isPrime n s with
-        | some b => toString b
-        | none => "inconclusive stream"
+      -- the stream is the complete log of what the implementation drew: the model must consume
+      -- exactly that (running out or leaving chunks unused is a disagreement, not an inconclusive run)
+      let model := match NTV.Prime.isPrimeS n s with
+        | some (b, []) => toString b
+        | some (b, rest) => s!"{b} but {rest.length} drawn chunks unused by the model"
+        | none => "model draws more than the implementation did"
       let truth : Option Bool :=
         if n < 0 then some false else
         match NTV.Spec.Elem.isPrimeRef n.toNat with
@@ -39,9 +42,11 @@ def isPrimeOp (scripted : Bool) : Handler := fun args impl =>
             else if n ≤ 2 || n % 2 == 0 then "fail:composite-accepted"
             else
               -- accepted composite: legitimate only if every drawn base is a strong liar
-              let bs := basesOf n.toNat 20 s
+              -- (fewer than 20 bases cannot give the 4^-20 bound)
+              let bs := basesOf n.toNat 21 s
               if bs.length == 20 && bs.all (fun a => NTV.Spec.Elem.sprp n.toNat a) then
                 (if scripted then "ok" else "fail:composite-accepted-on-unscripted-draws")
+              else if bs.length != 20 then s!"fail:composite-accepted-after-{bs.length}-bases"
               else "fail:composite-accepted-with-a-witness-among-the-bases"
           | none => "skip:no-reference-for-this-size"
         | _ => "fail:unexpected-" ++ impl
